@@ -19,6 +19,7 @@
     correspondence run evaluates on every generated history). *)
 From Coq Require Import List String Bool Arith NArith Relations.
 From Verif Require Import Caco.Load Caco.LoadProofs Caco.Build Caco.BuildProofs Caco.BuildGen Gen.CacoBuild.
+From Verif Require Import Caco.LoadSessionGen Caco.BuildSession Caco.BuildSessionProofs Caco.BuildParse Caco.BuildSessionGen.
 Import ListNotations.
 Local Open Scope string_scope.
 
@@ -216,6 +217,207 @@ Theorem C10_builder_shape_frozen :
 Proof. exact gen_builder_shape. Qed.
 Print Assumptions C10_builder_shape_frozen.
 
+
+(** ** Several Build calls on one Builder (Caco/BuildSession.v)
+
+    The theorems above are about [run], in which every build starts with an
+    empty memo [ctx.built].  That is the model of the code because [Build]
+    makes its [buildContext] at every call - which is read off the current
+    source on every run: the one [buildContext] literal of the package is a
+    statement of [Builder.Build]'s body (under no [if], loop or closure), bound
+    by [:=] to a local that is not assigned again and is what [buildNodes]
+    gets; nothing replaces a context's [built] field; the structs that
+    outlive a call ([Builder], [env], [buildOpts], [dockerOpts]) and the
+    package's variables are the frozen ones (no context, no map among them);
+    [loadNodes] makes a new loader at every call and [buildNodes] re-points
+    [env.nodeType]/[env.ruleType] at the context of the call first. *)
+Theorem C10_memo_is_made_per_build :
+  memo_policy_of_source = MemoPerBuild /\ memo_site_per_buildb = true /\
+  long_lived_state_frozenb = true /\ loader_per_loadb = true /\ env_hooks_per_buildb = true /\
+  env_writes_frozenb = true.
+Proof. exact gen_memo_made_per_build. Qed.
+Print Assumptions C10_memo_is_made_per_build.
+
+(** A Build call entered with the empty memo is [build_with]. *)
+Theorem C10_build_from_empty_memo : forall always ts w,
+  fst (build_from [] always ts w) = build_with always ts w.
+Proof. exact build_from_nil. Qed.
+Print Assumptions C10_build_from_empty_memo.
+
+(** With the memo policy of the current source, every history of
+    operations and Build calls on ONE long-lived Builder - or on Builders
+    replaced at any points - passes through the same worlds, executes the same
+    rules and ends each build the same way as the same history with Builders
+    that hold nothing ([wrun]: a function of the world alone; [SWipeOut] =
+    the whole out/ directory removed), whatever the Builder held when the
+    history began. *)
+Theorem C10_one_builder_eq_fresh_builders : forall h s,
+  s_world (fst (srun memo_policy_of_source h s)) = wrun h (s_world s) /\
+  snd (srun memo_policy_of_source h s) = wtrace h (s_world s).
+Proof. exact source_session_eq_wrun. Qed.
+Print Assumptions C10_one_builder_eq_fresh_builders.
+
+(** ... and [wrun], when out/ is never removed wholesale, is [run]. *)
+Theorem C10_one_builder_eq_run : forall h s,
+  no_wipeb h = true ->
+  s_world (fst (srun memo_policy_of_source h s)) = run (plain h) (s_world s).
+Proof. exact source_session_eq_run. Qed.
+Print Assumptions C10_one_builder_eq_run.
+
+(** The invariant of [C10_cache_valid] also holds along histories in which
+    out/ (with out/CACHE) is removed at any points. *)
+Theorem C10_cache_valid_with_wipes : forall h w,
+  winv w -> shist_in_scope h w -> winv (wrun h w).
+Proof. exact wrun_inv. Qed.
+Print Assumptions C10_cache_valid_with_wipes.
+
+(** incremental = clean for every history of Build calls on one Builder *)
+Theorem C10_one_builder_incremental_eq_clean : forall h rs src always always' ts s1 e1 L,
+  shist_in_scope h (empty_world rs src) ->
+  let s := fst (srun memo_policy_of_source h (new_session rs src)) in
+  build_in_scope ts (s_world s) -> load_world (s_world s) ts = LOk L ->
+  sbuild memo_policy_of_source always ts s = (s1, e1, BOk) ->
+  exists w2 e2, build_with always' ts (clean (s_world s)) = (w2, e2, BOk) /\
+    forall r rl fs ss gs is',
+      reach_rule L ts r -> find_rule r (w_rules (s_world s)) = Some rl ->
+      r_kind rl = KFileSet fs ss gs is' ->
+      exists l, content_at (w_out (s_world s1)) (fileset_out r) = Some (CList l) /\
+                content_at (w_out w2) (fileset_out r) = Some (CList l).
+Proof. exact source_session_incremental_eq_clean. Qed.
+Print Assumptions C10_one_builder_incremental_eq_clean.
+
+(** the next Build call on the same Builder, nothing changed, executes nothing *)
+Theorem C10_one_builder_noop_rebuild : forall h rs src always ts s1 e1,
+  shist_in_scope h (empty_world rs src) ->
+  let s := fst (srun memo_policy_of_source h (new_session rs src)) in
+  build_in_scope ts (s_world s) ->
+  sbuild memo_policy_of_source always ts s = (s1, e1, BOk) ->
+  exists s2, sbuild memo_policy_of_source false ts s1 = (s2, [], BOk) /\ s_world s2 = s_world s1.
+Proof. exact source_session_noop_rebuild. Qed.
+Print Assumptions C10_one_builder_noop_rebuild.
+
+(** a rule whose execution failed is not remembered as built by the Builder:
+    no cache entry, and the next call on the same Builder does what a call on a
+    new Builder does *)
+Theorem C10_one_builder_failed_not_remembered : forall h rs src always ts s1 ex e L,
+  shist_in_scope h (empty_world rs src) ->
+  let s := fst (srun memo_policy_of_source h (new_session rs src)) in
+  build_in_scope ts (s_world s) -> load_world (s_world s) ts = LOk L ->
+  sbuild memo_policy_of_source always ts s = (s1, ex, BFail e) ->
+  (exists ex0 x F d,
+     ex = (ex0 ++ [x])%list /\ reach_rule L ts x /\
+     sdig L (w_rules (s_world s)) (w_src (s_world s)) F x = Some d /\
+     cache_get d (w_cache (s_world s1)) = None) /\
+  forall always2 ts2,
+    (let '(s2, ex2, r2) := sbuild memo_policy_of_source always2 ts2 s1 in (s_world s2, ex2, r2)) =
+    (let '(s2, ex2, r2) := sbuild memo_policy_of_source always2 ts2 (mkS (s_world s1) []) in
+     (s_world s2, ex2, r2)).
+Proof. exact source_session_failed_not_remembered. Qed.
+Print Assumptions C10_one_builder_failed_not_remembered.
+
+(** A memo that survives across Build calls loses all of this: the statement
+    of [C10_one_builder_incremental_eq_clean] is false for [MemoKept] ... *)
+Theorem C10_kept_memo_refuted :
+  ~ (forall h rs src always always' ts s1 e1 L,
+       shist_in_scope h (empty_world rs src) ->
+       let s := fst (srun MemoKept h (new_session rs src)) in
+       build_in_scope ts (s_world s) -> load_world (s_world s) ts = LOk L ->
+       sbuild MemoKept always ts s = (s1, e1, BOk) ->
+       exists w2 e2, build_with always' ts (clean (s_world s)) = (w2, e2, BOk) /\
+         forall r rl fs ss gs is',
+           reach_rule L ts r -> find_rule r (w_rules (s_world s)) = Some rl ->
+           r_kind rl = KFileSet fs ss gs is' ->
+           exists l, content_at (w_out (s_world s1)) (fileset_out r) = Some (CList l) /\
+                     content_at (w_out w2) (fileset_out r) = Some (CList l)).
+Proof. exact session_kept_memo_refuted. Qed.
+Print Assumptions C10_kept_memo_refuted.
+
+(** ... by the history "build one target, edit a source of a dependency it
+    shares with another target, build that other target": stale lists; *)
+Theorem C10_kept_memo_stale_output_refuted :
+  let s := fst (srun MemoKept kx_hist (new_session kx_rules kx_src)) in
+  let '(s1, e1, r1) := sbuild MemoKept false ["pkg/right"] s in
+  let '(w2, e2, r2) := build_with false ["pkg/right"] (clean (s_world s)) in
+  r1 = BOk /\ r2 = BOk /\ e1 = ["pkg/right"] /\ e2 = ["pkg/base"; "pkg/right"] /\
+  content_at (w_out (s_world s1)) "pkg/right.fileset" =
+    Some (CList [ESrc "pkg/a.txt" (mkStat 2 1001 420 ""); ESrc "pkg/r.txt" (mkStat 6 1003 420 "")]) /\
+  content_at (w_out w2) "pkg/right.fileset" =
+    Some (CList [ESrc "pkg/a.txt" (mkStat 10 1010 420 ""); ESrc "pkg/r.txt" (mkStat 6 1003 420 "")]).
+Proof. exact kept_memo_stale_output_refuted. Qed.
+Print Assumptions C10_kept_memo_stale_output_refuted.
+
+(** ... and "a rule fails, build again": the second call succeeds, executes
+    nothing and leaves no output, while a clean build fails. *)
+Theorem C10_kept_memo_failed_treated_as_built_refuted :
+  let s0 := new_session kf_rules kx_src in
+  let '(s1, e1, r1) := sbuild MemoKept false ["pkg/top"] s0 in
+  let '(s2, e2, r2) := sbuild MemoKept false ["pkg/top"] s1 in
+  let '(w3, e3, r3) := build_with false ["pkg/top"] (clean (s_world s1)) in
+  r1 = BFail (FInclude "pkg/bun") /\ e1 = ["pkg/base"; "pkg/bun"; "pkg/top"] /\
+  r2 = BOk /\ e2 = [] /\ content_at (w_out (s_world s2)) "pkg/top.fileset" = None /\
+  r3 = BFail (FInclude "pkg/bun").
+Proof. exact kept_memo_failed_treated_as_built_refuted. Qed.
+Print Assumptions C10_kept_memo_failed_treated_as_built_refuted.
+
+(** ** The parse of the BUILD files is per Build call (Caco/BuildParse.v)
+
+    [newFileSet] expands Select patterns while a BUILD file is read, so what
+    a read yields depends on the source tree at that moment.  [run] expands at
+    every build against the current sources; that is the model of the code
+    because every Build call reads the BUILD files - decided on the current
+    source: the loader and its [read] table are made per [loadNodes] call,
+    [readBuildFile] (both of them) have the frozen text, and nothing but the
+    workspace memo and the per-call hooks is ever written on the Builder's
+    [env], whose fields are the frozen ones. *)
+Theorem C10_parse_is_per_build : parse_policy_of_source = ParsePerBuild.
+Proof. exact gen_parse_policy_per_build. Qed.
+Print Assumptions C10_parse_is_per_build.
+
+(** a Build whose patterns are expanded against the current sources is [build_with] *)
+Theorem C10_build_parsed_current : forall always ts w,
+  build_parsed (map fst (w_src w)) always ts w = build_with always ts w.
+Proof. exact build_parsed_current. Qed.
+Print Assumptions C10_build_parsed_current.
+
+(** With the parse policy of the current source a history on one long-lived
+    Builder goes through the worlds of [run] and executes what its builds
+    execute. *)
+Theorem C10_one_builder_parse_eq_run : forall h s,
+  p_world (fst (prun parse_policy_of_source h s)) = run h (p_world s) /\
+  snd (prun parse_policy_of_source h s) = btrace h (p_world s).
+Proof. exact source_prun_per_build. Qed.
+Print Assumptions C10_one_builder_parse_eq_run.
+
+(** Parsed BUILD files kept on the Builder while the files themselves are
+    unchanged: a file added to a selected directory is not listed and nothing
+    executes (a clean build lists it) ... *)
+Theorem C10_kept_parse_added_file_refuted :
+  let h := [OBuild ["p1/b"]; OSetSrc "p0/n.go" (Some (mkStat 10 1030 420 ""))] in
+  let s := fst (prun ParseKept h (mkP (empty_world kp_rules kp_src) None)) in
+  let '(s1, e1, r1) := pbuild ParseKept false ["p1/b"] s in
+  let '(w2, e2, r2) := build_with false ["p1/b"] (clean (p_world s)) in
+  let '(s3, e3, r3) := pbuild ParsePerBuild false ["p1/b"] s in
+  r1 = BOk /\ e1 = [] /\ r2 = BOk /\ e2 = ["p0/a"; "p1/b"] /\ r3 = BOk /\ e3 = ["p0/a"; "p1/b"] /\
+  content_at (w_out (p_world s1)) "p0/a.fileset" =
+    Some (CList [ESrc "p0/m.go" (mkStat 10 1002 420 ""); ESrc "p0/x.txt" (mkStat 4 1001 420 "")]) /\
+  content_at (w_out w2) "p0/a.fileset" =
+    Some (CList [ESrc "p0/m.go" (mkStat 10 1002 420 ""); ESrc "p0/n.go" (mkStat 10 1030 420 "");
+                 ESrc "p0/x.txt" (mkStat 4 1001 420 "")]) /\
+  content_at (w_out (p_world s3)) "p0/a.fileset" = content_at (w_out w2) "p0/a.fileset".
+Proof. exact kept_parse_added_file_refuted. Qed.
+Print Assumptions C10_kept_parse_added_file_refuted.
+
+(** ... and a file removed from it fails the build that a clean build passes. *)
+Theorem C10_kept_parse_removed_file_refuted :
+  let src := ("p0/n.go", mkStat 10 1030 420 "") :: kp_src in
+  let h := [OBuild ["p1/b"]; OSetSrc "p0/n.go" None] in
+  let s := fst (prun ParseKept h (mkP (empty_world kp_rules src) None)) in
+  let '(s1, e1, r1) := pbuild ParseKept false ["p1/b"] s in
+  let '(w2, e2, r2) := build_with false ["p1/b"] (clean (p_world s)) in
+  r1 = BLoadErr [EStat "p0/n.go"] /\ r2 = BOk /\ e2 = ["p0/a"; "p1/b"].
+Proof. exact kept_parse_removed_file_refuted. Qed.
+Print Assumptions C10_kept_parse_removed_file_refuted.
+
 (** ** Non-vacuity: a concrete workspace and history. *)
 Local Open Scope N_scope.
 
@@ -307,3 +509,14 @@ Example C10_nonvacuous_history2 :
     (["p0/a"; "p1/b"], true);               (* AlwaysRebuild of p1/b *)
     ([], true) ].
 Proof. split; [apply hist_in_scopeb_ok; vm_compute; reflexivity|vm_compute; reflexivity]. Qed.
+
+(** one long-lived Builder, Builders replaced in the middle: the same worlds
+    and the same executions as [run] (here with the first example history) *)
+Example C10_nonvacuous_session :
+  let h := (map SOp (firstn 6 ex_hist) ++ [SNewBuilder] ++ map SOp (skipn 6 ex_hist) ++
+            [SOp (OBuild ["p1/all"]); SWipeOut; SOp (OBuild ["p0/a"]); SOp (OBuild ["p0/a"])])%list in
+  shist_in_scope h (empty_world ex_rules ex_src) /\
+  map fst (snd (srun memo_policy_of_source h (new_session ex_rules ex_src))) =
+  [ ["p0/a"; "p1/b"; "p1/all"]; []; ["p0/a"; "p1/b"; "p1/all"]; ["p0/a"; "p1/b"]; ["p0/a"];
+    ["p1/zz"; "p1/b"]; ["p1/b"]; ["p0/a"]; [] ].
+Proof. split; [apply shist_in_scopeb_ok; vm_compute; reflexivity|vm_compute; reflexivity]. Qed.
